@@ -83,7 +83,7 @@ def search(ctx):
         for modname, mod, kappa in (('tools', tools, 2 * math.pi), ('laue', laue, 1.0)):
             for i in range(ctx.n(300, 5000)):
                 U = G.rotation(ctx.rng)
-                c = G.valid_cell(ctx.rng, oblique=ctx.rng.random() < 0.8)
+                c = G.valid_cell(ctx.rng, oblique=ctx.rng.random() < 0.8) if i % 3 else G.special_cell(ctx.rng)      # one in three: exact or almost exact 90 / 60 / 120 degree angles, equal axes
                 h = G.hkl(ctx.rng)
                 M = rand_ub(ctx.rng)
                 try:
